@@ -13,7 +13,7 @@ from .termio import BOOL, INT, REAL, mk_type, sort_of, sort_str
 UNIVERSE_SYMS = {"a": BOOL, "b": BOOL, "x": INT, "y": INT, "r": REAL, "u": ("BV", 2),
                  "f": ("Fun", INT, (INT,)), "st": "String", "A": ("Array", INT, INT),
                  # a user symbol whose name looks like the library's fresh names
-                 "FV1": BOOL, "@a": INT, "@b": INT}
+                 "FV1": BOOL, "@a": INT, "@b": INT, "pq": ("Fun", BOOL, (INT, BOOL))}
 FRESH_RE = re.compile(r"^(FV|ack|__x|\.def_|_assertion_|x!)(\d+)$")
 
 COMMUTATIVE = {op.AND, op.OR, op.PLUS, op.TIMES, op.IFF, op.EQUALS, op.BV_AND, op.BV_OR, op.BV_XOR,
@@ -51,6 +51,12 @@ def _formula_table():
     # an equality between symbols whose names start with @ (the model-validation simplifier of the SMT-LIB
     # layer treats such symbols as distinct values; the ordinary simplifier must not)
     add("F20", lambda m, S, F: m.Or(m.Equals(S["@a"], S["@b"]), S["a"]))
+    # a connective with a quantified argument (rewriters that collect the variables of such arguments must not
+    # write into the analyses' memoised answers)
+    add("F21", lambda m, S, F: m.And(S["a"], m.Exists([S["y"]], m.LT(S["x"], S["y"]))))
+    # a predicate over a theory term and a purely Boolean term (F6 shares the theory term): analyses that combine the
+    # answers for the arguments must not write into one of them
+    add("F22", lambda m, S, F: m.Function(S["pq"], [m.Plus(S["x"], S["y"]), m.And(S["a"], S["b"])]))
     return T
 
 
@@ -351,7 +357,7 @@ def ackey(f):
 
 
 # single events over further universe formulas (not the full per-formula alphabet)
-EXTRA_EVENTS = (("mvsimplify", "F20"), ("simplify", "F20"), ("simplify", "F14"), ("logic", "F18"), ("theory", "F18"), ("simplify", "F18"), ("types", "F18"),
+EXTRA_EVENTS = (("logic", "F22"), ("theory", "F22"), ("types", "F22"), ("prenex", "F21"), ("nnf", "F21"), ("mvsimplify", "F20"), ("simplify", "F20"), ("simplify", "F14"), ("logic", "F18"), ("theory", "F18"), ("simplify", "F18"), ("types", "F18"),
                 ("logic", "F19"))
 
 
